@@ -1,4 +1,4 @@
-(* C04 proofs, part 1: python string primitives, dictionaries, quality codec, fqSafe, header round trip *)
+(* C04 proofs, part 1: python string primitives, dictionaries, quality codec, fqSafe (for every kept class) *)
 From Coq Require Import ZArith List Bool Lia.
 Import ListNotations.
 From SCMO Require Import Lib.Val Gen.GenCodec Model.C04.
@@ -6,22 +6,18 @@ Open Scope Z_scope.
 
 (* ------------------------------------------------------------------ facts about the regenerated constants.
    Each is a closed computation; a change of the source that falsifies one makes this file fail. *)
+(* the regenerated tables satisfy the well-formedness predicates of Model/C04x.v (codec, header forms against the name
+   format, limit against the BAM capacity) *)
+Lemma gen_tables_wf : wf_tables = true.
+Proof. vm_compute. reflexivity. Qed.
+Lemma gen_wf_codec : wf_codec C0 = true.
+Proof. vm_compute. reflexivity. Qed.
 Lemma gen_enc_bounds : (0 <=? enc_lo) && (enc_lo <=? enc_hi) && (enc_hi <? len enc_table) = true.
 Proof. vm_compute. reflexivity. Qed.
 Lemma gen_dec_same : dec_table = enc_table /\ dec_off = enc_off.
 Proof. split; reflexivity. Qed.
 Lemma gen_sat_bounds : enc_lo + enc_off = 33 /\ enc_hi + enc_off = 84.
 Proof. split; reflexivity. Qed.
-Lemma gen_seps : enc_item_sep = dec_item_sep /\ enc_kv_sep = dec_kv_sep /\ enc_item_sep <> enc_kv_sep.
-Proof. repeat split; try reflexivity. vm_compute. discriminate. Qed.
-Lemma gen_seps_unsafe : fq_keep enc_item_sep = false /\ fq_keep enc_kv_sep = false.
-Proof. split; reflexivity. Qed.
-Lemma gen_seps_nospace : is_space enc_item_sep = false /\ is_space enc_kv_sep = false.
-Proof. split; reflexivity. Qed.
-Lemma gen_space_unsafe : forallb (fun c => negb (fq_keep c)) py_space = true.
-Proof. vm_compute. reflexivity. Qed.
-Lemma gen_keys_safe : forallb (fun e => (len (fst e) =? 2) && forallb fq_keep (fst e)) tag_table = true.
-Proof. vm_compute. reflexivity. Qed.
 Lemma gen_limit : header_limit <= 254.
 Proof. vm_compute. discriminate. Qed.
 (* the demultiplexer and the tagger agree on which tags hold encoded qualities, and every written tag is defined *)
@@ -113,57 +109,194 @@ Proof.
     + destruct (IH c H) as [E|[p' [Hp Hc]]]; [left; exact E|]. right. exists p'. split; [right; exact Hp|exact Hc].
 Qed.
 
-(* ------------------------------------------------------------------ strip *)
-Lemma lstrip_nospace : forall s, Forall (fun c => is_space c = false) s -> lstrip s = s.
-Proof. intros s H. destruct s as [|c r]; [reflexivity|]. inversion H; subst. cbn [lstrip]. rewrite H2. reflexivity. Qed.
+(* ------------------------------------------------------------------ split at a set of characters *)
+Lemma split_any_cons : forall seps c r,
+  split_any seps (c :: r) = if in_chars seps c then [] :: split_any seps r
+                         else match split_any seps r with h :: t => (c :: h) :: t | [] => [[c]] end.
+Proof. reflexivity. Qed.
+
+Lemma split_any_nonempty : forall seps s, split_any seps s <> [].
+Proof.
+  intros seps s. destruct s as [|c r]; [discriminate|]. rewrite split_any_cons.
+  destruct (in_chars seps c); [discriminate|]. destruct (split_any seps r); discriminate.
+Qed.
+
+Lemma split_any_nosep : forall seps p, (forall c, In c p -> in_chars seps c = false) -> split_any seps p = [p].
+Proof.
+  intros seps p. induction p as [|c p IH]; intro H; [reflexivity|].
+  rewrite split_any_cons, (H c (or_introl eq_refl)). rewrite IH; [reflexivity|].
+  intros x Hx. apply H. right. exact Hx.
+Qed.
+
+Lemma split_any_app_sep : forall seps p x s, (forall c, In c p -> in_chars seps c = false) -> in_chars seps x = true ->
+  split_any seps (p ++ x :: s) = p :: split_any seps s.
+Proof.
+  intros seps p x s. induction p as [|c p IH]; intros H Hx.
+  - cbn [app]. rewrite split_any_cons, Hx. reflexivity.
+  - cbn [app]. rewrite split_any_cons, (H c (or_introl eq_refl)). rewrite IH; [reflexivity| |exact Hx].
+    intros y Hy. apply H. right. exact Hy.
+Qed.
+
+(* the number of pieces is one more than the number of separator characters *)
+Definition count_in (seps : list Z) (s : str) : Z := len (filter (in_chars seps) s).
+
+Lemma count_in_cons : forall seps c s, count_in seps (c :: s) = (if in_chars seps c then 1 else 0) + count_in seps s.
+Proof. intros. unfold count_in. cbn [filter]. destruct (in_chars seps c); [rewrite len_cons|]; lia. Qed.
+
+Lemma split_any_len : forall seps s, len (split_any seps s) = 1 + count_in seps s.
+Proof.
+  intros seps s. induction s as [|c s IH]; [reflexivity|].
+  rewrite split_any_cons, count_in_cons. destruct (in_chars seps c).
+  - unfold len in *. cbn [length]. lia.
+  - pose proof (split_any_nonempty seps s) as NE. destruct (split_any seps s) as [|h t]; [contradiction|].
+    unfold len in *. cbn [length] in *. lia.
+Qed.
+
+(* split on one character is split at the singleton set *)
+Lemma split_any_single : forall sep s, split_any [sep] s = split sep s.
+Proof.
+  intros sep s. induction s as [|c s IH]; [reflexivity|]. rewrite split_any_cons, split_cons.
+  unfold in_chars. cbn [existsb]. rewrite orb_false_r, IH. reflexivity.
+Qed.
+
+(* pieces glued with separators, and split again *)
+Fixpoint glue (ps : list str) (ss : list Z) : str :=
+  match ps, ss with
+  | p :: (_ :: _) as r, x :: ss' => p ++ x :: glue r ss'
+  | p :: _, _ => p
+  | [], _ => []
+  end.
+
+Lemma glue_cons2 : forall p q r x ss, glue (p :: q :: r) (x :: ss) = p ++ x :: glue (q :: r) ss.
+Proof. reflexivity. Qed.
+
+Lemma split_any_glue : forall seps ps ss, ps <> [] -> S (length ss) = length ps ->
+  Forall (fun p => forall c, In c p -> in_chars seps c = false) ps -> Forall (fun x => in_chars seps x = true) ss ->
+  split_any seps (glue ps ss) = ps.
+Proof.
+  intros seps ps. induction ps as [|p r IH]; intros ss Hne Hl HP HS; [contradiction|].
+  inversion HP as [|? ? Hp Hr]; subst. destruct r as [|q r].
+  - destruct ss; [|cbn in Hl; discriminate]. cbn [glue]. apply split_any_nosep. exact Hp.
+  - destruct ss as [|x ss]; [cbn in Hl; discriminate|]. inversion HS as [|? ? Hx Hss]; subst.
+    rewrite glue_cons2, split_any_app_sep by assumption. f_equal.
+    apply IH; [discriminate|cbn in Hl |- *; congruence|exact Hr|exact Hss].
+Qed.
+
+(* ------------------------------------------------------------------ s.replace(p, '') *)
+(* a string in which [p] does not occur is left alone *)
+Fixpoint occurs (p s : str) : bool :=
+  match s with
+  | [] => false
+  | _ :: r => starts_with p s || occurs p r
+  end.
+
+Lemma remove_sub_aux_noocc : forall p s, occurs p s = false -> remove_sub_aux p O s = s.
+Proof.
+  intros p s. induction s as [|c s IH]; intro H; [reflexivity|].
+  cbn [occurs] in H. apply orb_false_iff in H. destruct H as [H1 H2].
+  cbn [remove_sub_aux]. rewrite H1, IH by exact H2. reflexivity.
+Qed.
+
+Lemma remove_sub_noocc : forall p s, occurs p s = false -> remove_sub p s = s.
+Proof. intros p s H. unfold remove_sub. destruct p; [reflexivity|]. apply remove_sub_aux_noocc. exact H. Qed.
+
+Lemma remove_sub_nil : forall s, remove_sub [] s = s.
+Proof. reflexivity. Qed.
+
+(* ------------------------------------------------------------------ strip, for every whitespace set *)
+Section Strip.
+  Variable sp : list Z.
+
+  Lemma lstrip_g_nospace : forall s, Forall (fun c => in_chars sp c = false) s -> lstrip_g sp s = s.
+  Proof. intros s H. destruct s as [|c r]; [reflexivity|]. inversion H; subst. cbn [lstrip_g]. rewrite H2. reflexivity. Qed.
+
+  Lemma strip_g_nospace : forall s, Forall (fun c => in_chars sp c = false) s -> strip_g sp s = s.
+  Proof.
+    intros s H. unfold strip_g, rstrip_g. rewrite (lstrip_g_nospace s H).
+    rewrite lstrip_g_nospace; [apply rev_involutive|].
+    apply Forall_forall. intros c Hc. apply in_rev in Hc. revert c Hc. apply Forall_forall. exact H.
+  Qed.
+End Strip.
 
 Lemma strip_nospace : forall s, Forall (fun c => is_space c = false) s -> strip s = s.
-Proof.
-  intros s H. unfold strip, rstrip. rewrite (lstrip_nospace s H).
-  rewrite lstrip_nospace; [apply rev_involutive|].
-  apply Forall_forall. intros c Hc. apply in_rev in Hc. revert c Hc. apply Forall_forall. exact H.
-Qed.
+Proof. intros s H. apply strip_g_nospace. exact H. Qed.
 
-(* ------------------------------------------------------------------ fqSafe *)
+(* ------------------------------------------------------------------ fqSafe, for every kept class *)
+Section Keep.
+  Variable keep : list (Z * Z).
+  Let K := in_ranges keep.
+  Let F := fqSafe_g keep.
+
+  Lemma fqSafe_g_idem : forall s, F (F s) = F s.
+  Proof.
+    unfold F, fqSafe_g. induction s as [|c s IH]; [reflexivity|]. cbn [filter].
+    destruct (in_ranges keep c) eqn:E; [|exact IH]. cbn [filter]. rewrite E, IH. reflexivity.
+  Qed.
+
+  Lemma fqSafe_g_fixed : forall s, forallb K s = true -> F s = s.
+  Proof.
+    unfold F, K, fqSafe_g. induction s as [|c s IH]; intro H; [reflexivity|].
+    cbn [forallb] in H. apply andb_true_iff in H. destruct H as [H1 H2]. cbn [filter]. rewrite H1, IH by exact H2. reflexivity.
+  Qed.
+
+  Lemma fqSafe_g_safe : forall s, forallb K (F s) = true.
+  Proof.
+    unfold F, K, fqSafe_g. induction s as [|c s IH]; [reflexivity|]. cbn [filter].
+    destruct (in_ranges keep c) eqn:E; [|exact IH]. cbn [forallb]. rewrite E, IH. reflexivity.
+  Qed.
+
+  (* exactly the strings over the kept class come back unchanged *)
+  Lemma fqSafe_g_fixed_iff : forall s, F s = s <-> forallb K s = true.
+  Proof.
+    intro s. split; [|apply fqSafe_g_fixed]. intro H. rewrite <- H. apply fqSafe_g_safe.
+  Qed.
+
+  Lemma fqSafe_g_app : forall a b, F (a ++ b) = F a ++ F b.
+  Proof. intros. unfold F, fqSafe_g. apply filter_app. Qed.
+
+  Lemma len_fqSafe_g : forall s, len (F s) <= len s.
+  Proof.
+    induction s as [|c s IH]; [cbn; lia|]. unfold F, fqSafe_g in *. cbn [filter].
+    destruct (in_ranges keep c); rewrite ?len_cons; lia.
+  Qed.
+
+  (* what is lost: exactly the characters outside the class, nothing is reordered or added *)
+  Lemma len_fqSafe_g_exact : forall s, len (F s) = len s - len (filter (fun c => negb (K c)) s).
+  Proof.
+    induction s as [|c s IH]; [reflexivity|]. unfold F, K, fqSafe_g in *. cbn [filter].
+    destruct (in_ranges keep c); cbn [negb]; rewrite ?len_cons; lia.
+  Qed.
+End Keep.
+
 Lemma fqSafe_idem : forall s, fqSafe (fqSafe s) = fqSafe s.
-Proof.
-  unfold fqSafe. induction s as [|c s IH]; [reflexivity|]. cbn [filter].
-  destruct (fq_keep c) eqn:E; [|exact IH]. cbn [filter]. rewrite E, IH. reflexivity.
-Qed.
+Proof. exact (fqSafe_g_idem fqsafe_ranges). Qed.
 
 Lemma fqSafe_fixed : forall s, safe s = true -> fqSafe s = s.
-Proof.
-  unfold fqSafe, safe. induction s as [|c s IH]; intro H; [reflexivity|].
-  cbn [forallb] in H. apply andb_true_iff in H. destruct H as [H1 H2]. cbn [filter]. rewrite H1, IH by exact H2. reflexivity.
-Qed.
+Proof. exact (fqSafe_g_fixed fqsafe_ranges). Qed.
 
 Lemma fqSafe_safe : forall s, safe (fqSafe s) = true.
-Proof.
-  unfold fqSafe, safe. induction s as [|c s IH]; [reflexivity|]. cbn [filter].
-  destruct (fq_keep c) eqn:E; [|exact IH]. cbn [forallb]. rewrite E, IH. reflexivity.
-Qed.
+Proof. exact (fqSafe_g_safe fqsafe_ranges). Qed.
+
+Lemma fqSafe_fixed_iff : forall s, fqSafe s = s <-> safe s = true.
+Proof. exact (fqSafe_g_fixed_iff fqsafe_ranges). Qed.
 
 (* the header-safe alphabet is exactly [A-Za-z0-9_-] *)
 Lemma safe_alphabet : forall c, fq_keep c = true <->
   (c = 45 \/ 48 <= c <= 57 \/ 65 <= c <= 90 \/ c = 95 \/ 97 <= c <= 122).
 Proof.
-  intro c. unfold fq_keep, fqsafe_ranges. cbn [existsb fst snd].
+  intro c. unfold fq_keep, in_ranges, fqsafe_ranges. cbn [existsb fst snd].
   rewrite !orb_true_iff, !andb_true_iff, !Z.leb_le. split; intro H; [|lia].
   destruct H as [H|[H|[H|[H|[H|H]]]]]; try lia; discriminate.
 Qed.
 
 Lemma fqSafe_app : forall a b, fqSafe (a ++ b) = fqSafe a ++ fqSafe b.
-Proof. intros. unfold fqSafe. apply filter_app. Qed.
+Proof. exact (fqSafe_g_app fqsafe_ranges). Qed.
 
 Lemma safe_app : forall a b, safe (a ++ b) = safe a && safe b.
-Proof. intros. unfold safe. apply forallb_app. Qed.
+Proof. intros. unfold safe, safe_g. apply forallb_app. Qed.
 
-Lemma safe_nospace : forall c, fq_keep c = true -> is_space c = false.
-Proof.
-  intros c H. destruct (is_space c) eqn:E; [|reflexivity]. unfold is_space in E.
-  apply existsb_exists in E. destruct E as [x [Hx Ex]]. apply Z.eqb_eq in Ex. subst x.
-  pose proof gen_space_unsafe as G. rewrite forallb_forall in G. specialize (G c Hx). rewrite H in G. discriminate.
-Qed.
+Lemma len_fqSafe : forall s, len (fqSafe s) <= len s.
+Proof. exact (len_fqSafe_g fqsafe_ranges). Qed.
 
 (* ------------------------------------------------------------------ dictionaries *)
 Section DictFacts.
